@@ -3,6 +3,7 @@ package main
 import (
 	"fmt"
 	"go/types"
+	"strconv"
 
 	"golang.org/x/tools/go/ssa"
 )
@@ -26,7 +27,25 @@ type Goroutine struct {
 
 type killed struct{}
 
+// maxGor is the length of the vector clocks of a path. gorLimit (//zz:opt gor=N, default 16) bounds the
+// number of goroutines ever spawned on one path (finished goroutines keep their slot).
 const maxGor = 18
+
+func (m *Machine) gorLimit() int {
+	if s, ok := m.cfg.Opts["gor"]; ok {
+		if n, err := strconv.Atoi(s); err == nil && n > 0 {
+			return n
+		}
+	}
+	return 16
+}
+
+func (m *Machine) vcLen() int {
+	if n := m.gorLimit() + 2; n > maxGor {
+		return n
+	}
+	return maxGor
+}
 
 func vcJoin(dst, src []int) []int {
 	if src == nil {
@@ -81,7 +100,7 @@ type ChanObj struct {
 
 func (m *Machine) runMain(fn *ssa.Function) {
 	p := m.path
-	g := &Goroutine{id: 0, resume: make(chan struct{}, 1), held: map[interface{}]int{}, vc: make([]int, maxGor)}
+	g := &Goroutine{id: 0, resume: make(chan struct{}, 1), held: map[interface{}]int{}, vc: make([]int, m.vcLen())}
 	g.vc[0] = 1
 	p.gor = []*Goroutine{g}
 	p.cur = g
@@ -133,8 +152,8 @@ func (m *Machine) goStmt(fr *Frame, x *ssa.Go) {
 
 func (m *Machine) spawn(body func()) *Goroutine {
 	p := m.path
-	if len(p.gor) > 16 {
-		panic(abortPath{"unwind", "more than 16 goroutines"})
+	if lim := m.gorLimit(); len(p.gor) > lim {
+		panic(abortPath{"unwind", fmt.Sprintf("more than %d goroutines", lim)})
 	}
 	g := &Goroutine{id: len(p.gor), resume: make(chan struct{}, 1), exited: make(chan struct{}), held: map[interface{}]int{}}
 	if parent := p.cur; parent != nil && parent.vc != nil {
@@ -142,7 +161,7 @@ func (m *Machine) spawn(body func()) *Goroutine {
 		g.vc[g.id] = 1
 		parent.vc[parent.id]++
 	} else {
-		g.vc = make([]int, maxGor)
+		g.vc = make([]int, m.vcLen())
 		g.vc[g.id] = 1
 	}
 	p.gor = append(p.gor, g)
